@@ -344,7 +344,7 @@ func judgeC15(ctx *core.Ctx, si int, s *c15Seq, run *c15Run, k int, cls string) 
 			ctx.Violation(si, "c15:length:"+cell+":"+cls, fmt.Sprintf("ContentLength()=%d, the underlying writer accepted %d bytes", run.lenSeen, run.fw.accepted), doc)
 		}
 		if fc := run.fw.failedAtCall; fc >= 0 {
-			if fc >= len(run.errs) || run.errs[fc] == nil || !(errors.Is(run.errs[fc], errInjected) || strings.Contains(run.errs[fc].Error(), errInjected.Error())) {
+			if fc >= len(run.errs) || run.errs[fc] == nil || !errors.Is(run.errs[fc], errInjected) {
 				kind := "Write"
 				if fc == 0 && s.First != "none" {
 					kind = s.First
